@@ -52,3 +52,161 @@ func VerifHevcDims() {
 	symapi.Assert(sps.Height() == wantH, "height-equals-standard")
 	symapi.Reach("end")
 }
+
+// ---- an independent bit-exact writer for the SPS syntax (H.265 7.3.2.2) ----
+
+type verifBitW struct {
+	buf []byte
+	n   int
+}
+
+func (w *verifBitW) bit(b byte) {
+	if w.n%8 == 0 {
+		w.buf = append(w.buf, 0)
+	}
+	w.buf[w.n/8] |= (b & 1) << uint(7-w.n%8)
+	w.n++
+}
+
+func (w *verifBitW) u(nbits int, v uint32) {
+	for i := nbits - 1; i >= 0; i-- {
+		w.bit(byte(v>>uint(i)) & 1)
+	}
+}
+
+// ue writes ue(v) for a concrete value.
+func (w *verifBitW) ue(v uint32) {
+	n := 0
+	for (v+1)>>uint(n+1) != 0 {
+		n++
+	}
+	w.u(n, 0)
+	w.u(n+1, v+1)
+}
+
+// ueSmall writes ue(v) for a symbolic v in 0..2 (codes 1, 010, 011) and returns v.
+func (w *verifBitW) ueSmall(name string) uint32 {
+	if symapi.Bool(name + ".zero") {
+		w.bit(1)
+		return 0
+	}
+	b := symapi.Byte(name+".low") & 1
+	w.bit(0)
+	w.bit(1)
+	w.bit(b)
+	return 1 + uint32(b)
+}
+
+// VerifHevcSpsSyntax: an SPS written field by field per the standard - with 1..3 sub-layers,
+// sub-layer ordering info present or not (distinct values per sub-layer, the first symbolic), a general profile from the
+// classes that select each reserved-bits branch of profile_tier_level, and distinct values in
+// the fields that follow - is decoded to exactly the written values and dimensions.
+func VerifHevcSpsSyntax() {
+	w := &verifBitW{}
+	w.u(16, 0x4201) // nal_unit_header: SPS
+	w.u(4, 0)       // sps_video_parameter_set_id
+	maxSub := uint32(symapi.IntRange("max_sub_layers_minus1", 0, 2))
+	w.u(3, maxSub)
+	w.u(1, 1) // temporal_id_nesting
+	// profile_tier_level(1, maxSub)
+	profile := []uint32{1, 2, 4, 5, 9, 11}[symapi.Choose("general_profile_idc", 6)]
+	w.u(2, 0)
+	w.u(1, 0)
+	w.u(5, profile)
+	w.u(32, uint32(1)<<(31-profile)) // compatibility flag j = profile
+	w.u(4, 0x9)                      // progressive, !interlaced, !non_packed, frame_only
+	w.u(32, 0)                       // 43 reserved / constraint bits (all zero is legal in every branch)
+	w.u(11, 0)
+	w.u(1, 0)  // inbld / reserved
+	w.u(8, 93) // general_level_idc
+	for i := uint32(0); i < maxSub; i++ {
+		w.u(2, 0) // sub_layer_profile_present_flag, sub_layer_level_present_flag
+	}
+	if maxSub > 0 {
+		for i := maxSub; i < 8; i++ {
+			w.u(2, 0)
+		}
+	}
+	w.ue(0) // sps_seq_parameter_set_id
+	w.ue(1) // chroma_format_idc 4:2:0
+	dims := [][2]uint32{{1920, 1080}, {64, 64}, {4096, 2160}}[symapi.Choose("dims", 3)]
+	w.ue(dims[0])
+	w.ue(dims[1])
+	w.u(1, 0) // conformance_window_flag
+	w.ue(0)   // bit_depth_luma_minus8
+	w.ue(0)   // bit_depth_chroma_minus8
+	w.ue(4)   // log2_max_pic_order_cnt_lsb_minus4
+	present := symapi.Bool("sub_layer_ordering_info_present")
+	var pflag uint32
+	if present {
+		pflag = 1
+	}
+	w.u(1, pflag)
+	first := maxSub
+	if present {
+		first = 0
+	}
+	var dpb, reorder, latency [3]uint32
+	for i := first; i <= maxSub; i++ {
+		if i == first {
+			dpb[i] = w.ueSmall("dpb") // symbolic
+		} else {
+			dpb[i] = i + 1
+			w.ue(dpb[i])
+		}
+		reorder[i], latency[i] = i, 2-i
+		w.ue(reorder[i])
+		w.ue(latency[i])
+	}
+	w.ue(0)   // log2_min_luma_coding_block_size_minus3
+	w.ue(3)   // log2_diff_max_min_luma_coding_block_size
+	w.ue(0)   // log2_min_luma_transform_block_size_minus2
+	w.ue(3)   // log2_diff_max_min_luma_transform_block_size
+	w.ue(2)   // max_transform_hierarchy_depth_inter
+	w.ue(1)   // max_transform_hierarchy_depth_intra
+	w.u(1, 0) // scaling_list_enabled
+	w.u(1, 1) // amp
+	w.u(1, 1) // sao
+	w.u(1, 0) // pcm
+	w.ue(0)   // num_short_term_ref_pic_sets
+	w.u(1, 0) // long_term_ref_pics_present
+	w.u(1, 1) // temporal_mvp
+	w.u(1, 1) // strong_intra_smoothing
+	w.u(1, 0) // vui_parameters_present
+	w.u(1, 0) // sps_extension_present
+	w.u(1, 1) // rbsp_stop_one_bit
+	for w.n%8 != 0 {
+		w.bit(0)
+	}
+	// emulation prevention (the writer of a real encoder): 00 00 0x -> 00 00 03 0x
+	var nal []byte
+	zeros := 0
+	for i, b := range w.buf {
+		if i >= 2 && zeros >= 2 && b <= 3 {
+			nal = append(nal, 3)
+			zeros = 0
+		}
+		nal = append(nal, b)
+		if b == 0 {
+			zeros++
+		} else {
+			zeros = 0
+		}
+	}
+	var sps H265RawSPS
+	err := sps.Decode(nal)
+	symapi.Assert(err == nil, "valid-sps-accepted")
+	symapi.Assert(sps.Width() == int(dims[0]) && sps.Height() == int(dims[1]), "dimensions-as-written")
+	symapi.Assert(sps.Profile_tier_level.General_profile_idc == uint8(profile) && sps.Profile_tier_level.General_level_idc == 93, "profile-and-level-as-written")
+	symapi.Assert(uint32(sps.Sps_max_sub_layers_minus1) == maxSub && sps.Log2_max_pic_order_cnt_lsb_minus4 == 4, "fields-before-the-ordering-info-as-written")
+	for i := first; i <= maxSub; i++ {
+		symapi.Assert(uint32(sps.Sps_max_dec_pic_buffering_minus1[i]) == dpb[i] && uint32(sps.Sps_max_num_reorder_pics[i]) == reorder[i] &&
+			sps.Sps_max_latency_increase_plus1[i] == latency[i], "sub-layer-ordering-info-as-written")
+	}
+	symapi.Assert(sps.Log2_min_luma_coding_block_size_minus3 == 0 && sps.Log2_diff_max_min_luma_coding_block_size == 3 &&
+		sps.Log2_diff_max_min_luma_transform_block_size == 3 && sps.Max_transform_hierarchy_depth_inter == 2 &&
+		sps.Max_transform_hierarchy_depth_intra == 1, "fields-after-the-ordering-info-as-written")
+	symapi.Assert(sps.Amp_enabled_flag == 1 && sps.Pcm_enabled_flag == 0 && sps.Sps_temporal_mvp_enabled_flag == 1 &&
+		sps.Vui_parameters_present_flag == 0 && sps.Sps_extension_present_flag == 0, "tail-flags-as-written")
+	symapi.Reach("end")
+}
